@@ -141,6 +141,19 @@ theorem splitter_unwraps_succeed (decls : List Comp) (p : List Tr) (out : List C
     subst hq
     simp
 
+/-- `translate_select_pipeline` takes "the" projection with `pluck(into_select) .. exactly_one().unwrap()`: the atomic part the
+splitter hands over holds EXACTLY ONE Select (its head; the scan drops every Select it passes), for every pipeline - the unwrap
+cannot fail -/
+theorem atomic_part_has_exactly_one_select (decls : List Comp) (p : List Tr) (out : List CId) :
+    (splitOffBack decls p out).atomic.filter isSelect = [.select (splitOffBack decls p out).select] := by
+  unfold SplitResult.atomic
+  have h := splitOffBack_kept_no_select decls p out
+  have : (splitOffBack decls p out).kept.filter isSelect = [] :=
+    List.filter_eq_nil_iff.mpr fun u hu => by simp [h u hu]
+  simp [List.filter_cons, isSelect, this]
+
+example : (splitOffBack [] [.from [0, 1], .select [0, 1], .filter (.col 0), .select [1]] [1]).atomic.filter isSelect = [.select [1]] := by decide
+
 end SplitterUnwraps
 
 end Props.C12
